@@ -1,0 +1,33 @@
+//go:build verif
+
+package sshsb
+
+import (
+	"io"
+
+	"github.com/goatcms/goatcore/app/modules/commonm/commservices"
+)
+
+// VerifInitSequence exposes the private start-up script builder
+// (SSHSandbox.initSequence) for verification tests. It returns the complete
+// script which is written to the standard input of the remote shell.
+// The entrypoint is the last line of the script ("sh" / "bash" in production,
+// see SSHSandboxBuilder.Build).
+func VerifInitSequence(envs commservices.Environments, entrypoint string) (script string, err error) {
+	var (
+		reader io.Reader
+		data   []byte
+	)
+	sandbox := &SSHSandbox{
+		username:   "verif",
+		host:       "verif",
+		entrypoint: entrypoint,
+	}
+	if reader, err = sandbox.initSequence(envs); err != nil {
+		return "", err
+	}
+	if data, err = io.ReadAll(reader); err != nil {
+		return "", err
+	}
+	return string(data), nil
+}
